@@ -99,8 +99,24 @@ def who_may_touch(chk, prog):
     R = chk.rule('W1.rng-state-owner', 'every variable written by the RNG API (srand_/rand_/randInt/randDouble) is '
                  'accessed by no function outside that API')
     api = set((RNG_SEED,) + RNG_DRAW)
+    # file-local helpers of the RNG unit that only the API calls belong to the API (xorshift step, seed expansion factored out)
+    api_files = {prog.funcs[n].file for n in api if prog.funcs.get(n) is not None}
+    callers = {}
+    for f in prog.all_funcs():
+        for cn, node in f.calls:
+            callers.setdefault(cn, set()).add(f.name)
+    grown = True
+    while grown:
+        grown = False
+        for f in prog.all_funcs():
+            if f.name in api or f.file not in api_files or not f.static:
+                continue
+            cs = callers.get(f.name, set())
+            if cs and cs <= api:
+                api.add(f.name)
+                grown = True
     state = set()
-    for name in api:
+    for name in sorted(api):
         f = prog.funcs.get(name)
         if f is None:
             chk.broke('RNG API function %s not found' % name)
@@ -334,6 +350,9 @@ def t3(chk, prog, only_funcs=None):
         if base is None:
             chk.broke('T3: cannot bind the thread handle of pthread_create in %s' % f.name)
             continue
+        # the start routine may be a function pointer selected elsewhere: then a creation guard that only tests that pointer plays the part of
+        # the learner dispatch chain (which E6 decides when it is written out) and is not compared with the join guard
+        indirect = any(not c[1] or prog.funcs.get(c[1]) is None for c in creates)
         joins = []
         for cn, node in f.calls:
             if cn == 'pthread_join':
@@ -394,7 +413,11 @@ def t3(chk, prog, only_funcs=None):
             cd, co = enum_conds(cc)
             jd, jo = enum_conds(jc)
             jo = [rename(c, m) for c in jo]
-            if set(map(repr, co)) != set(map(repr, jo)):
+            if set(map(repr, co)) != set(map(repr, jo)) and indirect:
+                chk.broke('T3: pthread_create in %s starts its routine through a function pointer (%s); the creation guard %s is not compared with the join guard' %
+                          (f.name, f.unit.text(a[2])[:30], co))
+                ok = False
+            elif set(map(repr, co)) != set(map(repr, jo)):
                 bad('guard', 'thread %s[...] is created under %s but joined under %s' % (
                     base.split('#')[0], sorted(map(repr, co)), sorted(map(repr, jo))), jnode)
                 ok = False
